@@ -20,7 +20,19 @@ func (u *Unit) oblige(st *State, kind, label string, props []string, goal *Term)
 	if len(st.guard) > 0 {
 		g = Imp(And(st.guard...), goal)
 	}
+	noAx := false
+	if hasProp(props, "opaque") {
+		noAx = true
+		var ps []string
+		for _, p := range props {
+			if p != "opaque" {
+				ps = append(ps, p)
+			}
+		}
+		props = ps
+	}
 	o := &Obligation{
+		NoAxioms: noAx,
 		Name: u.name() + "/" + label, Kind: kind, Props: props,
 		Assume: append([]*Term{}, st.assume...), Goal: g, Ctx: u.ctx,
 		Fn: u.fn.Key, InstName: u.inst.Name,
